@@ -132,7 +132,8 @@ def run(tier, seed, replay=None):
     run = Run("C05", tier, seed, RULE)
     drv = Driver()
     exp = {}
-    cases = [replay["case"]] if replay else \
+    from harness.common import corpus_cases
+    cases = [replay["case"]] if replay else corpus_cases("C05") + \
         [rc.make_case(run.rng, tier, damage=False) for _ in range(150 if tier == "quick" else 900)]
     for case in cases:
         run_case(run, drv, case)
